@@ -46,6 +46,7 @@ func registerSyncExternals() {
 		}
 		m.locked = true
 		m.writer = it.sched.cur
+		it.raceAcquire(m, false)
 		it.sched.logEvent(SyncEvent{Kind: "acq", Thread: it.sched.cur.id, Obj: m})
 		return nil
 	}
@@ -56,6 +57,7 @@ func registerSyncExternals() {
 			panic(fatalError{"sync: unlock of unlocked mutex"})
 		}
 		it.sched.logEvent(SyncEvent{Kind: "rel", Thread: it.sched.cur.id, Obj: m})
+		it.raceRelease(m, false)
 		m.locked = false
 		m.writer = nil
 		it.sched.yield("unlock")
@@ -69,6 +71,7 @@ func registerSyncExternals() {
 			it.sched.block("RLock", func() bool { return !m.locked && m.pendingW == 0 })
 		}
 		m.readers++
+		it.raceAcquire(m, true)
 		it.sched.logEvent(SyncEvent{Kind: "racq", Thread: it.sched.cur.id, Obj: m})
 		return nil
 	}
@@ -79,6 +82,7 @@ func registerSyncExternals() {
 			panic(fatalError{"sync: RUnlock of unlocked RWMutex"})
 		}
 		it.sched.logEvent(SyncEvent{Kind: "rrel", Thread: it.sched.cur.id, Obj: m})
+		it.raceRelease(m, true)
 		m.readers--
 		it.sched.yield("runlock")
 		return nil
@@ -110,6 +114,7 @@ func registerSyncExternals() {
 			ps = &poolState{}
 			it.hostSide[addr] = ps
 		}
+		it.raceAcquire(ps, false)
 		if n := len(ps.items); n > 0 && it.params["pool_new"] == 0 {
 			v := ps.items[n-1]
 			ps.items = ps.items[:n-1]
@@ -144,6 +149,12 @@ func registerSyncExternals() {
 			return nil
 		}
 		ps.items = append(ps.items, a[1])
+		if it.raceActive() {
+			// Put releases into the pool without overwriting what earlier Puts released
+			l := it.race.lock(ps)
+			l.w.join(*it.race.tvc(it.sched.cur.id))
+			(*it.race.tvc(it.sched.cur.id))[it.sched.cur.id]++
+		}
 		return nil
 	}
 
@@ -157,6 +168,7 @@ func registerSyncExternals() {
 			}
 			it.sched.yield("atomic")
 			it.sched.logEvent(SyncEvent{Kind: "atomic", Thread: it.sched.cur.id, Obj: addr})
+			it.raceAtomic(addr, true)
 			t := types.Typ[types.Uint64]
 			switch {
 			case w == 64 && signed:
@@ -180,6 +192,7 @@ func registerSyncExternals() {
 		addr := a[0].(*Value)
 		it.sched.yield("atomic")
 		it.sched.logEvent(SyncEvent{Kind: "atomic", Thread: it.sched.cur.id, Obj: addr})
+		it.raceAtomic(addr, false)
 		return *addr
 	}
 	storeF := func(fr *Frame, a []Value) Value {
@@ -187,6 +200,7 @@ func registerSyncExternals() {
 		addr := a[0].(*Value)
 		it.sched.yield("atomic")
 		it.sched.logEvent(SyncEvent{Kind: "atomic", Thread: it.sched.cur.id, Obj: addr})
+		it.raceAtomic(addr, true)
 		*addr = a[1]
 		return nil
 	}
@@ -199,6 +213,7 @@ func registerSyncExternals() {
 		addr := a[0].(*Value)
 		it.sched.yield("atomic")
 		it.sched.logEvent(SyncEvent{Kind: "atomic", Thread: it.sched.cur.id, Obj: addr})
+		it.raceAtomic(addr, true)
 		eq := it.eqTerm(types.Typ[types.Uint64], *addr, a[1])
 		if it.path.Branch(eq) {
 			*addr = a[2]
@@ -257,3 +272,67 @@ func (e *Env) clockStep(symbolic bool) {
 }
 
 var _ = fmt.Sprintf
+
+// raceAtomic: an atomic operation synchronises with other atomics on the same word and conflicts with
+// unordered plain accesses to it.
+func (it *Interp) raceAtomic(addr *Value, write bool) {
+	if !it.raceActive() {
+		return
+	}
+	key := atomicKey{addr}
+	it.raceAcquire(key, false)
+	it.raceAccess(addr, write, true)
+	it.raceRelease(key, false)
+}
+
+type atomicKey struct{ a *Value }
+
+// sync.WaitGroup
+type wgState struct {
+	n   int64
+	vcs vclock
+}
+
+func (it *Interp) wg(p Value) *wgState {
+	addr := p.(*Value)
+	if s, ok := it.hostSide[addr]; ok {
+		return s.(*wgState)
+	}
+	s := &wgState{}
+	it.hostSide[addr] = s
+	return s
+}
+
+func init() {
+	externals["(*sync.WaitGroup).Add"] = func(fr *Frame, a []Value) Value {
+		w := fr.it.wg(a[0])
+		w.n += int64(a[1].(uint64))
+		if w.n < 0 {
+			panic(targetPanic{v: Iface{T: fr.it.P.runtimeErr, V: "sync: negative WaitGroup counter"}})
+		}
+		return nil
+	}
+	externals["(*sync.WaitGroup).Done"] = func(fr *Frame, a []Value) Value {
+		it := fr.it
+		w := it.wg(a[0])
+		it.sched.yield("wg.done")
+		if it.raceActive() {
+			w.vcs.join(*it.race.tvc(it.sched.cur.id))
+			(*it.race.tvc(it.sched.cur.id))[it.sched.cur.id]++
+		}
+		w.n--
+		if w.n < 0 {
+			panic(targetPanic{v: Iface{T: it.P.runtimeErr, V: "sync: negative WaitGroup counter"}})
+		}
+		return nil
+	}
+	externals["(*sync.WaitGroup).Wait"] = func(fr *Frame, a []Value) Value {
+		it := fr.it
+		w := it.wg(a[0])
+		it.sched.block("WaitGroup.Wait", func() bool { return w.n == 0 })
+		if it.raceActive() {
+			it.race.tvc(it.sched.cur.id).join(w.vcs)
+		}
+		return nil
+	}
+}
